@@ -25,7 +25,8 @@
 (***************************************************************************)
 EXTENDS Naturals, Sequences, FiniteSets, TLC, Json
 
-CONSTANTS Clients, Versions, LockBroken, IgnoreSideHashFailure, MaxOps
+CONSTANTS Clients, Versions, LockBroken, IgnoreSideHashFailure, MaxOps,
+          UnlockBeforeCleanup   \* FALSE: as coded.  TRUE (sensitivity): a Store whose transfer failed gives the lock back before it removes its package
 
 VARIABLES zip, sidehash, lock,
           pc, ver, h1, copy,          \* per client: program counter, version being stored, first hash, private copy
@@ -76,13 +77,32 @@ SHash(c, fail) ==
        THEN IF fail /\ ~IgnoreSideHashFailure
             THEN result' = [result EXCEPT ![c] = "error"] /\ UNCHANGED <<stored, lastStore>>
             ELSE /\ result' = [result EXCEPT ![c] = "ok"] /\ stored' = Append(stored, ver[c])
-                 /\ lastStore' = (IF \E d \in Clients \ {c} : pc[d] \in {"s_trunc", "s_w1", "s_w2", "s_hash"} THEN 0 ELSE ver[c])
+                 /\ lastStore' = (IF \E d \in Clients \ {c} : pc[d] \in {"s_trunc", "s_w1", "s_w2", "s_hash"} \/ (pc[d] = "s_cleanup" /\ lock = d) THEN 0 ELSE ver[c])
        ELSE result' = [result EXCEPT ![c] = "error"] /\ UNCHANGED <<stored, lastStore>>
     /\ zip' = (IF zip = h1[c] THEN zip ELSE <<>>)          \* mismatch: the package is removed
     /\ lock' = (IF lock = c THEN "free" ELSE lock) /\ Goto(c, "idle")
     /\ UNCHANGED <<ver, h1, copy, installed, passed, expect, ops, viol>> /\ Log(c, IF fail THEN "SHashFailSide" ELSE "SHash")
 
+\* a write of the transfer fails: the Store removes what it has written (by name) and reports the error - as coded still under
+\* the lock; with UnlockBeforeCleanup the lock is given back first
+SWriteFail(c) ==
+    /\ pc[c] \in {"s_w1", "s_w2"} /\ faultsLeft > 0 /\ faultsLeft' = faultsLeft - 1
+    /\ Goto(c, "s_cleanup")
+    /\ lock' = (IF UnlockBeforeCleanup /\ lock = c THEN "free" ELSE lock)
+    /\ UNCHANGED <<zip, sidehash, ver, h1, copy, installed, stored, lastStore, passed, expect, result, ops, viol>> /\ Log(c, "SWriteFail")
+SCleanup(c) ==
+    /\ pc[c] = "s_cleanup"
+    /\ zip' = <<>> /\ result' = [result EXCEPT ![c] = "error"]
+    /\ lock' = (IF lock = c THEN "free" ELSE lock) /\ Goto(c, "idle")
+    /\ UNCHANGED <<sidehash, ver, h1, copy, installed, stored, lastStore, passed, expect, faultsLeft, ops, viol>> /\ Log(c, "SCleanup")
+
 \* ------------------------------------------------------------------ Fetch
+\* nothing there: the Fetch fails ('empty') - a violation when a Store has made its version visible and no Store began since
+FetchEmpty(c) ==
+    /\ pc[c] = "idle" /\ ops < MaxOps /\ zip = <<>> /\ CanEnter(c) /\ ops' = ops + 1
+    /\ result' = [result EXCEPT ![c] = "error"]
+    /\ viol' = viol \cup (IF lastStore # 0 THEN {"store-success-not-visible"} ELSE {})
+    /\ UNCHANGED <<zip, sidehash, lock, pc, ver, h1, copy, installed, stored, lastStore, passed, expect, faultsLeft>> /\ Log(c, "FetchEmpty")
 BeginFetch(c) ==
     /\ pc[c] = "idle" /\ ops < MaxOps /\ zip # <<>> /\ CanEnter(c)
     /\ lock' = c /\ ops' = ops + 1
@@ -112,8 +132,8 @@ Crash(c) == /\ pc[c] \notin {"idle", "dead"} /\ faultsLeft > 0 /\ faultsLeft' = 
 
 Next == viol = {} /\ \E c \in Clients :
            \/ \E v \in Versions : BeginStore(c, v)
-           \/ STrunc(c) \/ SWrite1(c) \/ SWrite2(c) \/ SHash(c, FALSE) \/ SHash(c, TRUE)
-           \/ BeginFetch(c) \/ FCopy1(c) \/ FCopy2(c) \/ FCheck(c) \/ Crash(c)
+           \/ STrunc(c) \/ SWrite1(c) \/ SWrite2(c) \/ SHash(c, FALSE) \/ SHash(c, TRUE) \/ SWriteFail(c) \/ SCleanup(c)
+           \/ BeginFetch(c) \/ FetchEmpty(c) \/ FCopy1(c) \/ FCopy2(c) \/ FCheck(c) \/ Crash(c)
 Spec == Init /\ [][Next]_vars
 
 \* a successful Fetch installed exactly one complete version
